@@ -13,6 +13,7 @@ from __future__ import annotations
 
 import itertools
 import json
+import os
 import multiprocessing as mp
 import random
 import re
@@ -32,6 +33,9 @@ RULES = ["fixes.delete_unreachable_code", "fixes.remove_dead_ifs", "fixes.remove
 
 def pstr(path) -> str:
     return ".".join(map(str, path))
+
+
+ITER_SRC = {"empty": "()", "one": "(1,)", "many": "(1, 2)", "U": "it()", "lazyempty": "zip((), (1, 2))", "lazyone": "iter((1,))"}
 
 
 def render_block(block, path, indent) -> List[str]:
@@ -58,13 +62,20 @@ def render_block(block, path, indent) -> List[str]:
             if s["final"]:
                 out.append(f"{pad}finally:")
                 out += render_block(s["final"], me + [4], indent + 4)
+        elif k == "match":
+            out.append(f"{pad}match u():")
+            out.append(f"{pad}    case True:")
+            out += render_block(s["body"], me + [1], indent + 8)
+            if s["orelse"]:
+                out.append(f"{pad}    case _:")
+                out += render_block(s["orelse"], me + [2], indent + 8)
         else:
             if k == "if":
                 head = "if " + {"T": "True", "F": "False", "U": "u()"}[s["t"]] + ":"
             elif k == "while":
                 head = "while " + {"T": "True", "F": "False", "U": "u()"}[s["t"]] + ":"
             else:
-                head = "for _x in " + {"empty": "()", "one": "(1,)", "many": "(1, 2)", "U": "it()"}[s["t"]] + ":"
+                head = "for _x in " + ITER_SRC[s["t"]] + ":"
             out.append(pad + head)
             out += render_block(s["body"], me + [1], indent + 4)
             if s["orelse"]:
@@ -75,6 +86,156 @@ def render_block(block, path, indent) -> List[str]:
 
 def render(shape) -> str:
     return "def shape():\n" + "\n".join(render_block(shape, [], 4)) + "\n"
+
+
+REACH_PRELUDE = """class Boom(Exception):
+    pass
+
+
+class Ctx:
+    def __enter__(self):
+        return self
+
+    def __exit__(self, *a):
+        return False
+
+
+TAPE = []
+FLIP = [0]
+
+
+def u():
+    if TAPE:
+        return bool(TAPE.pop(0))
+    FLIP[0] += 1
+    return FLIP[0] % 2 == 1
+
+
+def it():
+    return [1] * ((TAPE.pop(0) if TAPE else 0) + (TAPE.pop(0) if TAPE else 0))
+
+
+def ctx():
+    return Ctx()
+
+
+def mark(p):
+    print("mark", p)
+
+
+"""
+REACH_TAPES = ((), (1,), (0, 1), (1, 0), (1, 1), (1, 1, 1), (0, 0, 1), (1, 0, 1, 1))
+REACH_DRIVER = """
+
+for tape in {tapes}:
+    TAPE[:] = tape
+    FLIP[0] = 0
+    try:
+        print(tape, shape())
+    except Boom:
+        print(tape, "raised")
+    except AssertionError:
+        print(tape, "assertion failed")
+"""
+
+
+def sample_shape(rng: random.Random, depth: int = 2, inloop: bool = False):
+    """One block of the grammar of Reach.tla (python-side sampling of the space the specification enumerates)."""
+    def leaf(inl):
+        kinds = ["mark", "mark", "return", "raise", "assert"] + (["break", "continue"] if inl else [])
+        k = rng.choice(kinds)
+        return {"k": "assert", "t": rng.choice("TFU")} if k == "assert" else {"k": k}
+
+    def block(d, inl, allow_empty=False):
+        if allow_empty and rng.random() < 0.4:
+            return []
+        out = []
+        for _ in range(rng.choice((1, 1, 2))):
+            if d > 0 and rng.random() < 0.65:
+                out.append(compound(d - 1, inl))
+            else:
+                out.append(leaf(inl))
+            if out[-1]["k"] in ("return", "raise", "break", "continue") and rng.random() < 0.5:
+                break
+        if rng.random() < 0.5:
+            out.append({"k": "mark"})
+        return out
+
+    def compound(d, inl):
+        k = rng.choice(["if", "while", "for", "with", "try", "match"])
+        if k == "if":
+            return {"k": k, "t": rng.choice("TFU"), "body": block(d, inl), "orelse": block(d, inl, True)}
+        if k == "match":
+            return {"k": k, "body": block(d, inl), "orelse": block(d, inl, True)}
+        if k == "while":
+            return {"k": k, "t": rng.choice("TTFU"), "body": block(d, True), "orelse": block(0, inl, True)}
+        if k == "for":
+            return {"k": k, "t": rng.choice(list(ITER_SRC)), "body": block(d, True), "orelse": block(0, inl, True)}
+        if k == "with":
+            return {"k": k, "body": block(d, inl), "orelse": []}
+        handler = rng.choice([[{"k": "mark"}], [], [leaf(inl)], [leaf(inl)]])
+        final = [{"k": "mark"}] if (not handler or rng.random() < 0.3) else []
+        return {"k": k, "body": block(d, inl), "handler": handler, "final": final, "orelse": []}
+    return [compound(depth - 1, inloop), {"k": "mark"}]
+
+
+def directed_shapes():
+    """Loops whose only exit sits in a place that is not a plain statement of the loop body: the else clause of an inner
+    loop, an except handler, a case block, a with / if block, a finally clause."""
+    M, B, C = {"k": "mark"}, {"k": "break"}, {"k": "continue"}
+    carriers = {
+        "for_else": lambda x: {"k": "for", "t": "one", "body": [M], "orelse": [x]},
+        "for_empty_else": lambda x: {"k": "for", "t": "empty", "body": [M], "orelse": [x]},
+        "while_else": lambda x: {"k": "while", "t": "F", "body": [M], "orelse": [x]},
+        "handler": lambda x: {"k": "try", "body": [{"k": "assert", "t": "U"}, M], "handler": [x], "final": [], "orelse": []},
+        "handler_raise": lambda x: {"k": "try", "body": [{"k": "raise"}], "handler": [x], "final": [], "orelse": []},
+        "finally": lambda x: {"k": "try", "body": [M], "handler": [], "final": [x], "orelse": []},
+        "case": lambda x: {"k": "match", "body": [x], "orelse": [M]},
+        "case_default": lambda x: {"k": "match", "body": [M], "orelse": [x]},
+        "if_u": lambda x: {"k": "if", "t": "U", "body": [x], "orelse": []},
+        "else_u": lambda x: {"k": "if", "t": "U", "body": [M], "orelse": [x]},
+        "with": lambda x: {"k": "with", "body": [x], "orelse": []},
+    }
+    out = []
+    for cname, carrier in carriers.items():
+        for outer in ({"k": "while", "t": "T"}, {"k": "for", "t": "many"}):
+            for exit_, tail in ((B, [M]), (B, [{"k": "return"}]), (B, []), (C, [{"k": "return"}]), (C, [M, {"k": "raise"}])):
+                if cname == "finally" and exit_ is C:
+                    continue
+                loop = dict(outer, body=[carrier(exit_)] + tail, orelse=[])
+                out.append((f"{cname}-{outer['k']}{outer['t']}-{exit_['k']}-{len(tail)}{(tail or [M])[-1]['k']}", [loop, M]))
+    return out
+
+
+def reach_program(shape) -> str:
+    """A shape as a program that runs itself under a few tapes of unknown outcomes and prints what it did."""
+    return REACH_PRELUDE + render(shape) + REACH_DRIVER.format(tapes=repr(REACH_TAPES))
+
+
+def terminates(shape) -> bool:
+    """Whether the program form of the shape ends by itself (within 20000 trace events)."""
+    import contextlib
+    import io
+    code = compile(reach_program(shape), "<shape>", "exec")
+    steps = [0]
+
+    def tracer(frame, event, arg):
+        steps[0] += 1
+        if steps[0] > 20000:
+            raise Stop()
+        return tracer
+    try:
+        with contextlib.redirect_stdout(io.StringIO()):
+            sys.settrace(tracer)
+            try:
+                exec(code, {"__name__": "__reach__"})
+            finally:
+                sys.settrace(None)
+    except Stop:
+        return False
+    except Exception:  # noqa: BLE001
+        return False
+    return True
 
 
 class Stop(BaseException):     # not caught by the `except Exception:` clauses of the shapes
@@ -214,7 +375,13 @@ def reach_runs(t: str):
                 ("depth2-tails", dict(leaves='{"return", "break", "continue"}', tests='{"T", "U"}', iters='{"one", "U"}',
                                       comps='{"if", "while", "for"}', depth=2, inloop="FALSE", tails='{"mark", "return", "raise"}'), 25),
                 ("depth2-try", dict(leaves='{"return", "break", "raise"}', tests='{"T", "U"}', iters='{"one"}',
-                                    comps='{"try", "while", "for", "with"}', depth=2, inloop="FALSE", tails='{"mark", "return"}'), 25)]
+                                    comps='{"try", "while", "for", "with"}', depth=2, inloop="FALSE", tails='{"mark", "return"}'), 25),
+                # exits that are not statements of the loop body itself: break / continue in an except handler, in a case block,
+                # in the else clause of an inner loop; loops over iterator objects that yield nothing
+                ("depth2-handlers", dict(leaves='{"return", "break", "continue", "assertU"}', tests='{"T"}', iters='{"one", "lazyempty"}',
+                                         comps='{"try", "while", "for", "match"}', depth=2, inloop="FALSE", tails='{"mark", "return"}'), 25),
+                ("depth1-lazy", dict(leaves='{"return", "raise", "break", "continue"}', tests='{"T", "U"}', iters='{"lazyempty", "lazyone", "empty"}',
+                                     comps='{"for", "while", "match"}', depth=1, inloop="TRUE", tails='{"mark"}'), 7)]
     return [("depth1", dict(leaves='{"return", "raise", "break", "continue", "assertU", "assertF", "assertT"}', tests='{"T", "F", "U"}',
                             iters='{"empty", "one", "many", "U"}', comps='{"if", "while", "for", "with", "try"}', depth=1, inloop="TRUE",
                             tails='{"mark"}'), 3),
@@ -222,7 +389,13 @@ def reach_runs(t: str):
                                   comps='{"if", "while", "for", "with"}', depth=2, inloop="FALSE",
                                   tails='{"mark", "return", "raise", "break", "continue"}'), 25),
             ("depth2-try", dict(leaves='{"return", "break", "continue", "raise", "assertU"}', tests='{"T", "U"}', iters='{"one", "U"}',
-                                comps='{"try", "if", "while", "for", "with"}', depth=2, inloop="FALSE", tails='{"mark", "return", "raise"}'), 25)]
+                                comps='{"try", "if", "while", "for", "with"}', depth=2, inloop="FALSE", tails='{"mark", "return", "raise"}'), 25),
+            ("depth2-handlers", dict(leaves='{"return", "break", "continue", "assertU", "raise"}', tests='{"T", "U"}',
+                                     iters='{"one", "lazyempty", "lazyone", "U"}', comps='{"try", "while", "for", "match", "if"}', depth=2,
+                                     inloop="FALSE", tails='{"mark", "return", "raise", "break"}'), 25),
+            ("depth1-lazy", dict(leaves='{"return", "raise", "break", "continue", "assertU"}', tests='{"T", "F", "U"}',
+                                 iters='{"lazyempty", "lazyone", "empty", "one"}', comps='{"for", "while", "match", "try", "if"}', depth=1,
+                                 inloop="TRUE", tails='{"mark"}'), 3)]
 
 
 # ---------------------------------------------------------------------------------------------
@@ -371,7 +544,10 @@ def main(argv=None) -> int:
     t = tier()
     stats: Dict[str, int] = {}
     known = rep.known_entries()
+    only = os.environ.get("VERIF_C16_ONLY")        # debugging aid: one Reach run by label, no Effects part
     for label, c, with_pipeline in reach_runs(t):
+        if only and label != only:
+            continue
         cfg = "\n".join(["CONSTANTS", f"  Leaves = {c['leaves']}", f"  Tests = {c['tests']}", f"  Iters = {c['iters']}",
                          f"  Compounds = {c['comps']}", f"  Depth = {c['depth']}", f"  InLoop = {c['inloop']}", f"  Tails = {c['tails']}", "  MaxIter = 2",
                          "INIT Init", "NEXT Next", "INVARIANT Report", "INVARIANT Announce",
@@ -416,7 +592,8 @@ def main(argv=None) -> int:
                               f"({case.get('deleted_reachable_marks') or case.get('tape')})", case)
         k0 = next(iter(shapes))
         rep.sample({"shape_source": render(shapes[k0]), "reachable_marks": sorted(by_shape[k0])})
-    effects_part(rep, mods, t, known, stats)
+    if not only:
+        effects_part(rep, mods, t, known, stats)
     rep.coverage["evaluations"] = stats.get("rule_applications", 0) + stats.get("effect_cases", 0)
     rep.coverage["distinct_nontrivial"] = stats.get("rewrites", 0) + stats.get("effect_deletions", 0)
     rep.coverage["traces_validated_against_impl"] = stats.get("shapes", 0) + stats.get("effect_cases", 0)
